@@ -58,7 +58,7 @@ def gen_desc(rng):
         for j in range(rng.randrange(0, 3)):
             for _try in range(6):
                 op = rng.choice(['map', 'map', 'slice', 'batch', 'items', 'concat',
-                                 'zip', 'sort', 'shuffle', 'filter_eager', 'cache'])
+                                 'zip', 'sort', 'shuffle', 'filter_eager', 'cache', 'intersperse'])
                 sts = _mk(rng, op, a, 'u%d' % (j + 1), 100 * (j + 1))
                 b = pargen.abs_apply(a, sts[0])
                 if b is not None and b.indexable:
@@ -97,6 +97,9 @@ def _mk(rng, op, a, sid, offset):
         return [{'op': 'items'}]
     if op == 'concat':
         return [{'op': 'concat', 'n': rng.randrange(1, 4),
+                 'kind': 'dict' if a.keys else 'list', 'offset': offset, 'map': sid}]
+    if op == 'intersperse':
+        return [{'op': 'intersperse', 'n': rng.choice([n, 1, 2, 3]) or 1,
                  'kind': 'dict' if a.keys else 'list', 'offset': offset, 'map': sid}]
     if op == 'zip':
         return [{'op': 'zip', 'n': n, 'offset': offset + 50, 'map': sid}]
